@@ -83,7 +83,7 @@ func nickRun(e *Env) {
 	}
 	pre433 := g.W(4, 3, 2, 1)
 	welcomeForm := g.W(3, 2, 1)
-	welcomeDifferent := g.W(6, 2, 1) // 0 same, 1 truncated, 2 unrelated
+	welcomeDifferent := g.W(6, 2, 1, 2) // 0 same, 1 truncated, 2 unrelated, 3 same letters in another case
 	nEvents := g.Range(0, 10)
 	type ev struct{ kind, arg int }
 	var evs []ev
@@ -91,7 +91,7 @@ func nickRun(e *Env) {
 		evs = append(evs, ev{g.W(3, 3, 3, 3, 1), g.Intn(1000)})
 	}
 	e.Notef("track=%v generator=%s requested=%q 433-before-welcome=%d welcome=%s events=%d", track, []string{"default", "append ^", "identity", "shorten"}[genKind], want, pre433,
-		[]string{"same nick", "truncated", "unrelated"}[welcomeDifferent], nEvents)
+		[]string{"same nick", "truncated", "unrelated", "other letter case"}[welcomeDifferent], nEvents)
 
 	var serverNick string // the nick the server currently uses for the client ("" before the welcome)
 	var l *simnet.Link
@@ -206,6 +206,18 @@ func nickRun(e *Env) {
 				}
 			case 2:
 				final = "Guest" + fmt.Sprint(100+g.S.Choose(900))
+			case 3:
+				// the server knows the nick in its registered spelling
+				b := []byte(final)
+				for i, c := range b {
+					switch {
+					case c >= 'a' && c <= 'z' && (i == 0 || g.S.Choose(2) == 0):
+						b[i] = c - 32
+					case c >= 'A' && c <= 'Z' && (i == 0 || g.S.Choose(2) == 0):
+						b[i] = c + 32
+					}
+				}
+				final = string(b)
 			}
 		}
 		serverNick = final
@@ -540,10 +552,36 @@ func regRun(e *Env) {
 			got = append(got, ln)
 		}
 	}
+	// some servers send a PING "cookie" the moment they accept the connection,
+	// before NICK/USER have arrived: it is a PING with a token like any other
+	cookie := sslMode == 0 && g.Pct(35)
+	cookiePongs := 0
+	takeCookiePongs := func() {
+		kept := got[:0]
+		for _, ln := range got {
+			if ln == fmt.Sprintf("PONG :cookie-%d", connNo) {
+				cookiePongs++
+				continue
+			}
+			kept = append(kept, ln)
+		}
+		got = kept
+	}
 	e.OnDial = func(nl *simnet.Link) {
 		got = nil
 		connNo++
+		cookiePongs = 0
 		p = &peer{e: e, l: nl}
+		if cookie {
+			no := connNo
+			e.S.Count("fault.ping-cookie-at-accept")
+			e.S.Spawn(fmt.Sprintf("cookie-pinger%d", no), func() {
+				for k := e.S.Choose(3) * e.S.Choose(40); k > 0; k-- {
+					simrt.Sleep(0)
+				}
+				nl.SendLine(fmt.Sprintf("PING :cookie-%d", no))
+			})
+		}
 		switch sslMode {
 		case 1:
 			// no TLS server behind the simulated socket: the handshake fails and
@@ -614,6 +652,7 @@ func regRun(e *Env) {
 				break
 			}
 		}
+		takeCookiePongs()
 		var wantReg []string
 		if capNeg {
 			wantReg = append(wantReg, "CAP LS")
@@ -637,6 +676,12 @@ func regRun(e *Env) {
 		}
 		simrt.Settle(30 * time.Second)
 		recvAll(time.Second)
+		takeCookiePongs()
+		e.Check()
+		if cookie && cookiePongs != 1 {
+			e.Violation("pong", "connection %d: the server's PING :cookie-%d, sent as soon as it accepted the connection, was answered %d times (client wrote %s)", conn, connNo, cookiePongs, clipq(got))
+			return
+		}
 		// nothing of the registration is repeated
 		for _, ln := range got[len(wantReg):] {
 			for _, pf := range []string{"PASS ", "NICK ", "USER ", "CAP LS"} {
@@ -823,18 +868,30 @@ func capRun(e *Env) {
 		if g.Pct(50) {
 			wanted = append(wanted, cp)
 		}
-		if g.Pct(60) {
-			advertised = append(advertised, cp)
-		}
 	}
 	saslKind := g.W(4, 3, 2) // none, PLAIN, EXTERNAL
-	saslAdvertised := g.Pct(70)
-	if saslAdvertised {
-		advertised = append(advertised, "sasl")
+	var saslAdvertised, laterDisable bool
+	var outcome string
+	var reply int
+	// what the server of one session offers and answers; the same client may
+	// connect again to a server that offers something else
+	drawServer := func() {
+		advertised = nil
+		for _, cp := range universe {
+			if g.Pct(60) {
+				advertised = append(advertised, cp)
+			}
+		}
+		saslAdvertised = g.Pct(70)
+		if saslAdvertised {
+			advertised = append(advertised, "sasl")
+		}
+		outcome = []string{"903", "904", "908"}[g.Intn(3)]
+		reply = g.W(6, 3) // ACK, NAK
+		laterDisable = g.Pct(30)
 	}
-	outcome := []string{"903", "904", "908"}[g.Intn(3)]
-	reply := g.W(6, 3) // ACK, NAK
-	laterDisable := g.Pct(30)
+	drawServer()
+	nSessions := 1 + g.W(6, 3, 1)
 	cfg := client.NewConfig("me")
 	cfg.EnableCapabilityNegotiation = true
 	cfg.Capabilites = append([]string{}, wanted...)
@@ -861,27 +918,35 @@ func capRun(e *Env) {
 		wantSet["sasl"] = true
 	}
 	var inter []string
-	for _, a := range advertised {
-		if wantSet[a] {
-			inter = append(inter, a)
+	intersect := func() {
+		inter = nil
+		for _, a := range advertised {
+			if wantSet[a] {
+				inter = append(inter, a)
+			}
 		}
+		sort.Strings(inter)
 	}
-	sort.Strings(inter)
-	e.Notef("wanted=%d advertised=%d intersection=%d sasl=%s advertised-sasl=%v reply=%s outcome=%s", len(wantSet), len(advertised), len(inter),
+	intersect()
+	e.Notef("sessions=%d wanted=%d; first server: advertised=%d intersection=%d sasl=%s advertised-sasl=%v reply=%s outcome=%s", nSessions, len(wantSet), len(advertised), len(inter),
 		[]string{"none", "PLAIN", "EXTERNAL"}[saslKind], saslAdvertised, []string{"ACK", "NAK"}[reply], outcome)
 	c := client.Client(cfg)
+	discs := 0
+	c.HandleFunc(client.DISCONNECTED, func(*client.Conn, *client.Line) { discs++ })
 	var l *simnet.Link
 	var got []string
 	e.LinkPlan = func(l *simnet.Link) { l.ChunkMode = g.Intn(4) }
 	done := false
 	enabled := map[string]bool{}
 	saslStarted, saslAsked, saslEnded := false, false, false
+	droppedMidSasl := false
+	session := 1
 	fail := func(clause, f string, a ...interface{}) {
 		e.Violation(clause, f+fmt.Sprintf("\nclient lines so far: %s", clipq(got)), a...)
 	}
 	e.OnDial = func(nl *simnet.Link) {
 		l = nl
-		e.S.Spawn("server", func() {
+		e.S.Spawn(fmt.Sprintf("server%d", nl.ID), func() {
 			defer func() { done = true }()
 			nextLine := func() (string, bool) {
 				ln, ok := l.RecvLineFor(10 * time.Minute)
@@ -1021,6 +1086,14 @@ func capRun(e *Env) {
 						if !single {
 							continue
 						}
+						if session < nSessions && g.S.Choose(4) == 0 {
+							// the link drops in the middle of the SASL exchange: the
+							// next connection starts from scratch
+							e.S.Count("fault.link-drops-mid-sasl")
+							droppedMidSasl = true
+							l.CloseByServer()
+							return
+						}
 						l.SendLine("AUTHENTICATE +")
 						saslAsked = true
 						ln, ok = nextLine()
@@ -1072,45 +1145,69 @@ func capRun(e *Env) {
 			}
 		})
 	}
-	if err := c.Connect(); err != nil {
-		e.Violation("harness-connect", "Connect: %v", err)
-		return
-	}
-	if !simrt.BlockFor("cap", "negotiation script", 10*time.Hour, func() bool { return done || e.S.Failed() }) {
-		e.Violation("negotiation-stuck", "capability negotiation did not end\n%s\nclient lines: %s", e.S.TaskDump(), clipq(got))
-		return
-	}
-	if e.S.Failed() {
-		return
-	}
-	simrt.Settle(10 * time.Second)
-	// queries at quiescence
-	all := append(append([]string{}, universe...), "sasl", "never-mentioned")
-	adv := map[string]bool{}
-	for _, a := range advertised {
-		adv[a] = true
-	}
-	for _, cp := range all {
-		e.Check()
-		if c.SupportsCapability(cp) != adv[cp] {
-			e.Violation("supports", "SupportsCapability(%q)=%v but advertised=%v", cp, c.SupportsCapability(cp), adv[cp])
+	for ; session <= nSessions; session++ {
+		if session > 1 {
+			// the same client connects again; this server has its own offer
+			e.S.Count("fault.reconnect-to-another-offer")
+			drawServer()
+			intersect()
+			got, done, enabled = nil, false, map[string]bool{}
+			saslStarted, saslAsked, saslEnded = false, false, false
+			e.Notef("session %d: advertised=%d intersection=%d advertised-sasl=%v reply=%s outcome=%s", session, len(advertised), len(inter), saslAdvertised, []string{"ACK", "NAK"}[reply], outcome)
+		}
+		if err := c.Connect(); err != nil {
+			e.Violation("harness-connect", "Connect: %v", err)
 			return
 		}
-		if c.HasCapability(cp) != enabled[cp] {
-			e.Violation("has", "HasCapability(%q)=%v but the server's latest acknowledgement says %v", cp, c.HasCapability(cp), enabled[cp])
+		if !simrt.BlockFor("cap", "negotiation script", 10*time.Hour, func() bool { return done || e.S.Failed() }) {
+			e.Violation("negotiation-stuck", "capability negotiation did not end\n%s\nclient lines: %s", e.S.TaskDump(), clipq(got))
+			return
+		}
+		if e.S.Failed() {
+			return
+		}
+		if droppedMidSasl {
+			droppedMidSasl = false
+			if !simrt.BlockFor("cap", "DISCONNECTED after the link dropped", time.Hour, func() bool { return discs >= session }) {
+				e.Violation("harness", "no DISCONNECTED after the server hung up\n%s", e.S.TaskDump())
+				return
+			}
+			continue
+		}
+		simrt.Settle(10 * time.Second)
+		// queries at quiescence
+		all := append(append([]string{}, universe...), "sasl", "never-mentioned")
+		adv := map[string]bool{}
+		for _, a := range advertised {
+			adv[a] = true
+		}
+		for _, cp := range all {
+			e.Check()
+			if c.SupportsCapability(cp) != adv[cp] {
+				e.Violation("supports", "session %d: SupportsCapability(%q)=%v but this server advertised=%v", session, cp, c.SupportsCapability(cp), adv[cp])
+				return
+			}
+			if c.HasCapability(cp) != enabled[cp] {
+				e.Violation("has", "session %d: HasCapability(%q)=%v but the server's latest acknowledgement says %v", session, cp, c.HasCapability(cp), enabled[cp])
+				return
+			}
+		}
+		// after registration nothing more of the negotiation is sent, and AUTHENTICATE
+		// never appears without an acknowledged sasl
+		for _, ln := range got {
+			if strings.HasPrefix(ln, "AUTHENTICATE") && !saslStarted {
+				e.Violation("sasl-unacknowledged", "the client sent %q although sasl was never acknowledged", ln)
+				return
+			}
+		}
+		_, _ = saslAsked, saslEnded
+		d0 := discs
+		c.Close()
+		if !simrt.BlockFor("cap", "DISCONNECTED", time.Hour, func() bool { return discs > d0 }) {
+			e.Violation("harness", "no DISCONNECTED after Close\n%s", e.S.TaskDump())
 			return
 		}
 	}
-	// after registration nothing more of the negotiation is sent, and AUTHENTICATE
-	// never appears without an acknowledged sasl
-	for _, ln := range got {
-		if strings.HasPrefix(ln, "AUTHENTICATE") && !saslStarted {
-			e.Violation("sasl-unacknowledged", "the client sent %q although sasl was never acknowledged", ln)
-			return
-		}
-	}
-	_, _ = saslAsked, saslEnded
-	c.Close()
 }
 
 // ---------------------------------------------------------------------------
